@@ -291,6 +291,8 @@ RefreshOne(t) ==
           /\ Log([a |-> "RefreshOne", svc |-> svc, s |-> s, res |-> o])
     /\ UNCHANGED <<now, regUp, getUp, refuse, wallet, dead, gone, loc, api, env, rounds, ticked, deact, lastPar, orphan>>
 
+RefreshAny == \E t \in loop.todo : RefreshOne(t)
+
 RefreshSync ==
     /\ loop.phase = "running" /\ loop.todo = {}
     /\ loop' = Idle
@@ -368,7 +370,7 @@ Next ==
     \/ \E svc \in Services, s \in Subjects, p \in Params : Activate(svc, s, p)
     \/ \E svc \in Services, s \in Subjects : Deactivate(svc, s)
     \/ RefreshStart
-    \/ \E t \in loop.todo : RefreshOne(t)
+    \/ RefreshAny
     \/ RefreshSync
     \/ Restart
     \/ Advance \/ ToggleReg \/ ToggleGet
@@ -376,8 +378,8 @@ Next ==
     \/ \E s \in Subjects : RemoveSubject(s)
 
 Spec == Init /\ [][Next]_vars
-\* the refresh loop keeps running (time.Ticker) and every started round finishes
-FairSpec == Spec /\ WF_vars(RefreshStart) /\ WF_vars(\E t \in loop.todo : RefreshOne(t)) /\ WF_vars(RefreshSync)
+\* time passes, the refresh loop keeps running (time.Ticker) and every started round finishes
+FairSpec == Spec /\ WF_vars(Advance) /\ WF_vars(RefreshStart) /\ WF_vars(RefreshAny) /\ WF_vars(RefreshSync)
 
 (***************************************************************************)
 (* Properties                                                              *)
@@ -459,5 +461,6 @@ RecordsIndependent ==
 CanSucceed(c) == /\ c[2] \notin gone
                  /\ \E d \in Eligible(c[1], c[2]) : wallet[d] /\ Accepts(c[1], d)
                  /\ (PartialIsFailure => \A x \in WithCreds(c[1], c[2]) : Accepts(c[1], x))
-RetryClearsError == \A c \in CS : (rec[c].on /\ err[c]) ~> (~err[c] \/ ~CanSucceed(c))
+\* (now < MaxTime: the clock and the rounds per slot of the MODEL are bounded; at the end of time nothing can happen)
+RetryClearsError == \A c \in CS : (rec[c].on /\ err[c] /\ now < MaxTime) ~> (~err[c] \/ ~CanSucceed(c))
 =============================================================================
